@@ -1,4 +1,5 @@
 import RallyModel.Dbl
+import RallyModel.Alloc
 /-
 Model of the bulk-indexing parameter source (C03):
 
@@ -7,6 +8,8 @@ Model of the bulk-indexing parameter source (C03):
                             create_default_reader, create_readers, chain, bulk_generator,
                             bulk_data_based, PartitionBulkIndexParamSource (+ the loop of
                             driver.ScheduleHandle that calls `params()` until StopIteration)
+  esrally/driver/driver.py  schedule_for: how a `TaskAllocation` (model: `Alloc.Entry.task`, C02) becomes the
+                            `partition(index, count)` call on the shared parameter source
   esrally/utils/io.py       prepare_file_offset_table, FileOffsetTable.find_closest_offset,
                             skip_lines, MmapSource.readline/readlines
 
@@ -273,6 +276,7 @@ inductive Err
   | indexError        -- ids[idx]
   | assertion         -- RallyAssertionError: total partitions changed
   | noPartition       -- params() before partition(): self.partitions[0]
+  | percentCompletedZeroDivision -- `percent_completed` with total_bulks = 0 (pre-fix code only, see `runCallsPinned`)
 deriving DecidableEq, Repr
 
 /-- a reader as built by `create_default_reader` (not yet opened) -/
@@ -441,6 +445,7 @@ def runCalls {α : Type} (o : Oracle) (cfg : Cfg) (corpora : List (Corpus α)) :
   | c :: cs, p, stopped =>
     if c ∈ stopped then runCalls o cfg corpora cs p stopped
     else
+      -- (`percent_completed` is evaluated first; since fix b9aff71 it is 1.0 when `total_bulks = 0` and cannot fail)
       match p.params o cfg corpora with
       | (.error err, _) => .error err
       | (.stopIteration, p1) => runCalls o cfg corpora cs p1 (c :: stopped)
@@ -449,10 +454,46 @@ def runCalls {α : Type} (o : Oracle) (cfg : Cfg) (corpora : List (Corpus α)) :
         | .error err => .error err
         | .ok (out, st, p2) => .ok ((c, b) :: out, st, p2)
 
+/-- PINNED pre-fix code (before b9aff71), kept only for the historical `…_pinned` witness:
+    `percent_completed = current_bulk / total_bulks`, evaluated by `ScheduleHandle.__call__` before every
+    `params()`, raised ZeroDivisionError once a group without any bulk had been initialised by another
+    co-located client. -/
+def runCallsPinned {α : Type} (o : Oracle) (cfg : Cfg) (corpora : List (Corpus α)) :
+    List Nat → PState α → List Nat → Except Err (List (Nat × Bulk α) × List Nat × PState α)
+  | [], p, stopped => .ok ([], stopped, p)
+  | c :: cs, p, stopped =>
+    if c ∈ stopped then runCallsPinned o cfg corpora cs p stopped
+    else if p.totalBulks = 0 then .error .percentCompletedZeroDivision
+    else
+      match p.params o cfg corpora with
+      | (.error err, _) => .error err
+      | (.stopIteration, p1) => runCallsPinned o cfg corpora cs p1 (c :: stopped)
+      | (.bulk b, p1) =>
+        match runCallsPinned o cfg corpora cs p1 stopped with
+        | .error err => .error err
+        | .ok (out, st, p2) => .ok ((c, b) :: out, st, p2)
+
 /-- `schedule_for` calls `partition(client_index, task.clients)` for every co-located client first -/
 def partitionAll {α : Type} (n : Nat) : List Nat → PState α → Except Err (PState α)
   | [], p => .ok p
   | c :: cs, p => match p.partition c n with | .error err => .error err | .ok p1 => partitionAll n cs p1
+
+/-- `schedule_for(task_allocation, parameter_source)`:
+    `parameter_source.partition(task_allocation.client_index_in_task, task.clients)` — the number of partitions
+    is the client count of the *task* (`sub.clients`), not `task_allocation.total_clients` (the client count of
+    the enclosing schedule element, the 4th field of `Alloc.Entry.task`, which only serves ramp-up).
+    Join points and `None` paddings are not tasks. -/
+def scheduleForPartition {α : Type} (p : PState α) : Alloc.Entry → Except Err (PState α)
+  | .task sub idxInTask _ _ => p.partition idxInTask sub.clients
+  | _ => .ok p
+
+/-- `AsyncIoAdapter.run`: `schedule_for` for every co-located client of the task, on the one shared source -/
+def partitionEntries {α : Type} : List Alloc.Entry → PState α → Except Err (PState α)
+  | [], p => .ok p
+  | en :: es, p =>
+    match scheduleForPartition p en with
+    | .error err => .error err
+    | .ok p1 => partitionEntries es p1
 
 /-! ## 6. byte layer: offset table, skip_lines, mmap readline -/
 
